@@ -762,6 +762,12 @@ def flagLoop : Nat → Nat → P Nat
 
 def setCur (f : Msg → Msg) : P Unit := modifyCS fun cs => { cs with cur := f cs.cur }
 
+/-- fetch.go handleFetch, `case "BODYSTRUCTURE"` (and BODY without a section) -/
+def fetchBodyAtt (fuel dp : Nat) (guard : Bool) : P Unit := do
+  expectSP
+  let b ← readBody guard fuel dp 0
+  setCur fun m => { m with body := some b.out, bodyDepth := b.depth }
+
 /-- fetch.go handleFetch: one msg-att -/
 def fetchAtt (fuel dp : Nat) (guard : Bool) (seq : Nat) : P Unit := do
   match ← func isMsgAttNameChar with
@@ -788,9 +794,7 @@ def fetchAtt (fuel dp : Nat) (guard : Bool) (seq : Nat) : P Unit := do
       else if name == strB "BODY" || name == strB "BODYSTRUCTURE" then do
         if name == strB "BODY" then
           if ← special 91 then unmodelled
-        expectSP
-        let b ← readBody guard fuel dp 0
-        setCur fun m => { m with body := some b.out, bodyDepth := b.depth }
+        fetchBodyAtt fuel dp guard
       else if name == strB "BINARY" then do
         if ← special 91 then unmodelled else fail
       else if name == strB "MODSEQ" then do
